@@ -51,6 +51,13 @@ Del(k) ==
     /\ act' = [op |-> "Del", k |-> k] /\ dirty' = TRUE
     /\ UNCHANGED <<disk, attached, committedView, exported>>
 
+\* another SQLite-backed index of the same process (another file) gets a different entry under the same key: this
+\* index does not care
+Elsewhere(k, e) ==
+    /\ Tick
+    /\ act' = [op |-> "Elsewhere", k |-> k, e |-> e]
+    /\ UNCHANGED <<live, rows, disk, attached, committedView, exported, dirty>>
+
 \* iteritems(): loads lazily; a load re-stores the directory entry and commits
 Iter ==
     /\ Tick
@@ -97,6 +104,7 @@ Export(kind) ==
 Next ==
     \/ \E k \in Keys, e \in Entries : Set(k, e)
     \/ \E k \in Keys : Del(k)
+    \/ \E k \in Keys, e \in Entries : Elsewhere(k, e)
     \/ Iter \/ Commit \/ Reopen \/ Attach
     \/ \E kind \in {"json", "db"} : Export(kind)
 
